@@ -2,7 +2,13 @@
 import glob
 import os
 
+import importlib.util
+
 import checklib
+
+_spec = importlib.util.spec_from_file_location("props__conc", os.path.join(os.path.dirname(os.path.abspath(__file__)), "_conc.py"))
+_conc = importlib.util.module_from_spec(_spec)
+_spec.loader.exec_module(_conc)
 
 
 def decode(p):
@@ -52,7 +58,43 @@ def post(ctx, cases, gores, model):
             checklib.violation(ctx, rp, f"handshake trace not accepted by the model: {res[i][0]}")
 
 
+def extract(ctx):
+    """regenerate the fact debugger_is_read_only (lean/Ecal/Gen/C15.lean) from the type-checked source"""
+    import re
+    txt = _conc.extract(ctx, "C15", "C15.lean")
+    cov = ctx.coverage
+    unknown = []
+    if "def typeChecked : Bool := true" not in txt:
+        unknown.append("package interpreter did not type-check")
+    unknown += ["not found: " + m for m in re.findall(r'\("([^"]+)", false\)', txt.split("def reachable")[0])]
+    unres = txt.split("def unresolved")[1]
+    unknown += ["unresolved: " + a + " in " + f for f, a in re.findall(r'\("([^"]*)", "([^"]*)"\)', unres)]
+    acc = re.findall(r'\("([^"]*)", "([^"]*)"\)', txt.split("def observerAccesses")[1].split("def ownWrites")[0])
+    cov["fact_debugger_is_read_only"] = "unknown" if unknown else "established-or-refuted-by-lean (observer_accesses_allowed, own_writes_locked)"
+    cov["fact_accesses"] = sorted(set(a for _, a in acc))
+    cov["fact_functions_reachable"] = len(re.findall(r'"', txt.split("def reachable")[1].split("\n")[0])) // 2
+    if unknown:
+        ctx.notes.append("fact debugger_is_read_only is UNKNOWN (" + "; ".join(unknown[:5]) + "): no obligation is broken by that; "
+                         "the metamorphic search is amplified (4x programs) in this run")
+        checklib.GOENV["C15_AMPLIFY"] = "1"
+
+
+def search(ctx):
+    """the fact is refuted (or a proof broke) and the quick run saw no difference: thorough metamorphic search"""
+    ctx.log("search: thorough metamorphic run for a concrete difference")
+    cases, gores, model, bad = _conc.stress(ctx, ctx.harness, "thorough", "search", SPEC.get("shards", 8), 900)
+    ctx.coverage["search_evaluations"] = len(cases)
+    if not bad:
+        return None
+    i = bad[0]
+    return checklib.write_replay(ctx, "input", {"payload": cases[i], "readable": decode(cases[i])},
+                                 model.get(i, ("MISSING", {}))[0], gores.get(i, "MISSING"),
+                                 f"./check {ctx.prop} --replay <this file>")
+
+
 SPEC = dict(
+    extract=extract,
+    search=search,
     lean_modules=["Ecal.Props.C15"],
     shards=12,
     rule=("cases = generated terminating programs (functions incl. bounded recursion and nested calls, loops, try/except/"
@@ -67,6 +109,8 @@ SPEC = dict(
         "the visit trace handed to the model is recorded from the real interpreter by a wrapper around the debugger (harness code)",
         "Go's sync.Cond / sync.Mutex behave as the handshake transition system assumes (no spurious wake-ups, Wait releases the lock atomically)",
         "hook events are logged in an order consistent with the lock order (hooks/C15.patch places them inside the critical sections)",
+        "fact extractor (go/types over package interpreter): static classification of receivers / assignment targets; reflection, unsafe and function values are outside it (function values are reported as unresolved)",
+        "that the scope / AST methods the debugger is allowed to call (Parent, Name, ToJSONObject, Equals) are read-only is tested (metamorphic run, C05), not proved",
     ],
     assumptions=[
         "transparency (same result/log/variables) is a tested metamorphic relation over generated programs, not a theorem about the Go evaluator",
